@@ -33,7 +33,7 @@ def make_root(case):
   for n in reachable_buildables(root):
     sig = graphs.sig_of(n)
     for i, p in enumerate(sig):
-      if p[1] in ('po', 'pk') and r.random() < 0.3:
+      if p[1] in ('po', 'pk') and r.random() < (0.7 if p[1] == 'po' and i not in n.__arguments__ else 0.3):
         try:
           fdl.add_tag(n, i, r.choice(targets.TAGS))
         except Exception:
